@@ -54,6 +54,7 @@ type l2Block struct {
 }
 
 type jWorld struct {
+	strayIdx    int // mainnet claims generated with non-zero rollup-index bits in their global index
 	l1          *fakechain.Chain
 	l1store     *l1infotreesync.L1InfoTreeSync
 	l2store     *bridgesync.BridgeSync
@@ -337,6 +338,13 @@ func (w *jWorld) addL2Block(ch choose.Chooser, nBridges int, claims []claimSrc) 
 	}
 	for _, src := range claims {
 		c := w.makeClaim(src, num, pos)
+		if src.Mainnet && ch.Int(0, 7, "strayRollupBitsInMainnetIndex") == 0 {
+			// the bridge contract versions this repository binds ignore the rollup-index bits of a global index whose
+			// mainnet flag is set (no InvalidGlobalIndex error in their ABI), so a claimer may leave anything there
+			r := choose.Pick(ch, []uint64{1, 5, 1 << 24, 1<<32 - 1}, "strayBits")
+			c.GlobalIndex = new(big.Int).Or(c.GlobalIndex, new(big.Int).Lsh(new(big.Int).SetUint64(r), 32))
+			w.strayIdx++
+		}
 		b.Claims = append(b.Claims, c)
 		cp := c
 		cp.Amount, cp.GlobalIndex, cp.Metadata = cpBig(c.Amount), cpBig(c.GlobalIndex), cpBytes(c.Metadata)
